@@ -12,15 +12,24 @@ def run(tier, seed, update_lock=False):
     R = Run('C16', 'other', tier, seed)
     reg = msm.registry()
     u = Unit('msm-estimator', reg, keys=[msm.F + 'MSM.__init__', msm.F + 'MSM.fit', msm.F + 'MSM.config'], mutants=MUT)
-    R.prove(u)
-    R.canary_check(u)
+    from contracts import spectrum as SP
+    TMF = 'enspara/msm/transition_matrices.py'
+    MUTS = [('ascending-order', TMF, "    order = np.argsort(-np.real(vals))", "    order = np.argsort(np.real(vals))"),
+            ('wrong-side', TMF, "    T = T.T if left else T\n", "    T = T if left else T.T\n"),
+            ('vectors-not-reordered', TMF, "    vecs = vecs[:, order]\n", "")]
+    us = [Unit('eigenspectrum[left vectors, dense]', SP.registry(True), mutants=MUTS), Unit('eigenspectrum[right vectors, dense]', SP.registry(False))]
+    for x in [u] + us:
+        R.prove(x)
+    for x in [u] + us:
+        R.canary_check(x)
     R.bounded('C16.py', 'run-time contracts on the real MSM class, eigenspectrum, implied_timescales, synthetic_ensemble, save/load',
               'assignment sets 2 x 12..20 frames over 3-4 states, lags 1..3, 3 builders, trim / sliding / state-count options; spectral clauses on fitted ergodic matrices (dense, csr)')
 
     def payload(f):
         return {'key': msm.F + 'MSM.__init__', 'inputs': f['model'], 'obligation': f['oid']}
     resolve_failures(R, 'C16.py', payload)
-    R.clauses = [{'clause': 'constructor stores every argument; config reports them', 'status': 'proved (SMT on the real MSM.__init__ / config)'},
+    R.clauses = [{'clause': 'eigenspectrum (dense branch, LAPACK\'s eigen-decomposition assumed): the solver is given the transpose of T exactly when left eigenvectors are asked for; the returned values are the solver\'s in non-increasing order, cut to n_eigs; every returned column keeps its pairing with its value', 'status': 'proved (SMT on the real function)'},
+                 {'clause': 'constructor stores every argument; config reports them', 'status': 'proved (SMT on the real MSM.__init__ / config)'},
                  {'clause': 'fit = builder(trim?(assigns_to_counts(assigns, lag, states, sliding))) with the stored configuration; mapping = trim mapping or identity', 'status': 'proved (pipeline functions uninterpreted: C03/C11/C04 say what they compute)'},
                  {'clause': 'save then load gives an equal model', 'status': 'bounded (real round trips through mmwrite/json/pickle)'},
                  {'clause': 'spectrum: real, descending, leading 1, left vector stationary; timescale = -lag/ln(lambda); n-step propagation = n multiplications', 'status': 'bounded (run-time contracts vs numpy.linalg); Perron-Frobenius assumed'}]
